@@ -305,6 +305,64 @@ def reach_idempotent(si: int, mult: int, x: int, s: str, arm: bool) -> int:
     return idempotent_check(si, mult, x, s, arm)
 
 
+def reassign_check(si, mult, mult2, x, s, arm):
+    """Assign a value, encode (what a first write does), assign another value - of the other kind where the attribute
+    takes several (text / reference, date / number, integer / float) or of another multiplicity - and encode again: the
+    bytes are those of a fresh object that only ever had the second value (no representation code, count or value
+    remembered from the first encoding)."""
+    reset_global_state()
+    (ci, an) = ACTIVE_SITES[si]
+    S = ITEM_SETS[ci]
+    with untraced():
+        it = make_item(S, 'OBJ', origin=1)
+        it2 = make_item(S, 'OBJ', origin=1)
+        a = getattr(it, an)
+        a2 = getattr(it2, an)
+        kind = kind_of(a)
+    pv1 = py_values(a, kind, mult, x, s, arm)
+    pv2 = py_values(a, kind, mult2, x, s, not arm)
+    if pv1 is None or pv2 is None:
+        return 0
+    try:
+        a.value = pv1[0]
+        it.make_item_body_bytes()
+    except REJECT:
+        return 0
+    try:
+        a2.value = pv2[0]
+        fresh = tok(it2.make_item_body_bytes())
+    except REJECT:
+        return 0                          # the second value alone is not encodable: not this obligation's subject
+    try:
+        a.value = pv2[0]
+        second = tok(it.make_item_body_bytes())
+    except REJECT:
+        return 1                          # encodable on a fresh object, refused after the first encoding
+    if second != fresh:
+        return 2
+    return 0
+
+
+def ob_reassign(si: int, mult: int, mult2: int, x: int, s: str, arm: bool) -> int:
+    """
+    pre: 0 <= si < N_SITES and si % SHARD_N == SHARD_I
+    pre: 1 <= mult <= 2 and 1 <= mult2 <= 2
+    pre: -3 <= x <= 3 and len(s) <= 1 and s.isascii()
+    post: _ == 0
+    """
+    return reassign_check(si, mult, mult2, x, s, arm)
+
+
+def reach_reassign(si: int, mult: int, mult2: int, x: int, s: str, arm: bool) -> int:
+    """
+    pre: 0 <= si < N_SITES and si % SHARD_N == SHARD_I
+    pre: 1 <= mult <= 2 and 1 <= mult2 <= 2
+    pre: -3 <= x <= 3 and len(s) <= 1 and s.isascii()
+    post: _ != 0
+    """
+    return reassign_check(si, mult, mult2, x, s, arm)
+
+
 def wit_idempotent_param_values(x: int) -> bool:
     """
     A parameter with flat values and no dimension can be encoded twice.
